@@ -51,6 +51,38 @@ void run_dec_world() {
     J hist = J::arr(); J pics = J::arr(); uint64_t oh = fnv_init(); std::vector<std::vector<uint8_t>> outp; J sess = J::arr();
 
     sim_start(&sc, world_fatal);
+    if (g_case.geti("null_calls", 0)) {
+        // C14: every public decoder entry point with NULL handle / NULL buffer arguments must return an error code
+        auto rec = [&](const char *name, long long e) { J r = J::arr(); r.push(std::string("null:") + name); r.push(e); hist.push(r); };
+        EbSvtAv1DecConfiguration cfg0; memset(&cfg0, 0, sizeof cfg0); EbComponentType *hh = nullptr; uint8_t b[8] = {0x12, 0, 0, 0, 0, 0, 0, 0};
+        EbBufferHeaderType ob; memset(&ob, 0, sizeof ob); EbAV1StreamInfo si; EbAV1FrameInfo fi; memset(&si, 0, sizeof si); memset(&fi, 0, sizeof fi);
+        sim_api_enter();
+        rec("dec_init_handle(NULL,cfg)", svt_av1_dec_init_handle(nullptr, nullptr, &cfg0));
+        rec("dec_init_handle(&h,NULL)", svt_av1_dec_init_handle(&hh, nullptr, nullptr)); if (hh) { svt_av1_dec_deinit_handle(hh); hh = nullptr; }
+        rec("dec_set_parameter(NULL,cfg)", svt_av1_dec_set_parameter(nullptr, &cfg0));
+        rec("dec_init(NULL)", svt_av1_dec_init(nullptr));
+        rec("dec_frame(NULL,..)", svt_av1_dec_frame(nullptr, b, 2, 0));
+        rec("dec_get_picture(NULL,..)", svt_av1_dec_get_picture(nullptr, &ob, &si, &fi));
+        rec("dec_deinit(NULL)", svt_av1_dec_deinit(nullptr));
+        rec("dec_deinit_handle(NULL)", svt_av1_dec_deinit_handle(nullptr));
+        sim_api_exit();
+        if (g_case.geti("null_calls", 0) >= 2) {
+            // with a live handle: NULL buffers
+            std::vector<uint8_t> cm(sizeof(EbSvtAv1DecConfiguration) + 64, 0); EbSvtAv1DecConfiguration *c2 = (EbSvtAv1DecConfiguration *)(cm.data() + 32); EbComponentType *h2 = nullptr;
+            sim_api_enter();
+            if (svt_av1_dec_init_handle(&h2, nullptr, c2) == EB_ErrorNone && h2) {
+                c2->threads = 1; c2->max_picture_width = W; c2->max_picture_height = H; c2->max_bit_depth = EB_EIGHT_BIT; c2->max_color_format = EB_YUV420; c2->num_p_frames = 1;
+                rec("dec_set_parameter(h,NULL)", svt_av1_dec_set_parameter(h2, nullptr));
+                if (svt_av1_dec_set_parameter(h2, c2) == EB_ErrorNone && svt_av1_dec_init(h2) == EB_ErrorNone) {
+                    rec("dec_frame(h,NULL,0)", svt_av1_dec_frame(h2, nullptr, 0, 0));
+                    rec("dec_get_picture(h,NULL,..)", svt_av1_dec_get_picture(h2, nullptr, &si, &fi));
+                    svt_av1_dec_deinit(h2);
+                }
+                svt_av1_dec_deinit_handle(h2);
+            }
+            sim_api_exit();
+        }
+    }
     for (int s = 0; s < sessions; s++) {
         EbComponentType *h = nullptr; std::vector<uint8_t> cfgmem(sizeof(EbSvtAv1DecConfiguration) + 64, (uint8_t)g_case.geti("cfg_fill", 0)); EbSvtAv1DecConfiguration *cfg = (EbSvtAv1DecConfiguration *)(cfgmem.data() + 32);
         sim_count_allocs(1);
